@@ -18,13 +18,13 @@ from vmon.probes import get_open_audit
 RULE = ('file names = product of segment kinds {file names in root, subdir, ., .., empty, sibling directory names that extend the '
         "root's name, decoy names, absolute prefixes incl. the root itself, the sibling and /etc/passwd} x 1..3 segments x separators "
         '{/, \\, //, /./} x leading forms {none, /, \\, //} x root spellings {plain, trailing /, doubled /, via sub/.., relative, /.}; '
-        'each call audited for open() and compared with the tree on disk; also driven through Ombott.__call__ with the name taken '
+        'each call audited for open() and compared with the tree on disk; histories over several roots (every file of one root served first, then another root asked for it by absolute path); also driven through Ombott.__call__ with the name taken '
         'from a path wildcard. Non-trivial = the name contains a dot-dot, an absolute prefix, a backslash or a sibling name; '
         'distinct = distinct (root spelling, filename).')
-REQUIRED = ['served_200', 'denied_403', 'missing_404', 'opens_observed', 'names_with_dotdot', 'names_with_backslash',
+REQUIRED = ['probes_after_serving_another_root', 'served_200', 'denied_403', 'missing_404', 'opens_observed', 'names_with_dotdot', 'names_with_backslash',
             'names_absolute', 'names_sibling_prefix', 'served_content_compared', 'via_wsgi']
-EXHAUSTIVE = {'quick': True, 'thorough': True,
-              'quick_note': 'complete product for <=2 segments', 'thorough_note': 'complete product for <=3 segments'}
+EXHAUSTIVE = {'quick': False, 'thorough': False,
+              'quick_note': 'the product units enumerate the name product for <=2 segments completely', 'thorough_note': 'the product units enumerate the name product for <=3 segments completely'}
 ASSUMPTIONS = ['the tree contains no symbolic links (the statement speaks of the normalised location)',
                'POSIX path semantics (os.sep == "/")']
 
@@ -150,11 +150,55 @@ def check_call(ctx, static_file, audit, base, files, real_root, rname, root, nam
             ctx.count('readable_file_inside_root_answered_403(not a verdict)')
 
 
+def history_unit(ctx, unit):
+    """Several roots served by one process: every file of root A is first served legitimately, then the whole name
+    product (incl. the absolute paths of A's files) is asked of root B; containment is judged against the root of
+    *that* call.  Catches anything remembered from one call that short-cuts the checks of a later one."""
+    ombott, static_file = _setup()
+    audit = get_open_audit()
+    base, files = build_tree()
+    cwd = os.getcwd()
+    os.chdir(base)
+    try:
+        roots = ['www', 'www2', 'www-private', 'www/sub']
+        for ra in roots:
+            for rb in roots:
+                if ra == rb:
+                    continue
+                root_a = os.path.join(base, ra)
+                root_b = os.path.join(base, rb)
+                real_b = os.path.realpath(root_b)
+                inside_a = [p for p in files if p.startswith(os.path.realpath(root_a) + os.sep)]
+                for rep in range(2):
+                    for p in inside_a:
+                        rel = os.path.relpath(p, root_a)
+                        for nm in (rel, '/' + rel, p):
+                            with audit:
+                                res = static_file(nm, root_a)
+                            body = getattr(res, 'body', None)
+                            if hasattr(body, 'close'):
+                                body.close()
+                    ctx.count('legitimate_serves_before_probing')
+                    cand = [p for p in inside_a] + [os.path.relpath(p, root_b) for p in inside_a] + ['/' + os.path.relpath(p, root_a) for p in inside_a]
+                    cand += list(itertools.islice(names(1, base), 0, 400))
+                    for name in cand:
+                        ctx.case(('hist', ra, rb, name.replace(base, '')), nontrivial=True)
+                        classify(ctx, name)
+                        wit = {'unit': {'kind': 'note', 'served_first_from': ra, 'then_asked_of': rb, 'name': name.replace(base, '<BASE>')}}
+                        check_call(ctx, static_file, audit, base, files, real_b, rb, root_b, name, wit)
+                        ctx.count('probes_after_serving_another_root')
+        ctx.sample({'roots': roots, 'scheme': 'serve every file of root A (relative, slash-prefixed and absolute spelling), then ask root B for names incl. the absolute paths of files of A'})
+    finally:
+        os.chdir(cwd)
+        shutil.rmtree(base, ignore_errors=True)
+
+
 def plan(tier, seed):
     maxseg = 2 if tier == 'quick' else 3
     shards = 4 if tier == 'quick' else 32
     units = [{'kind': 'product', 'maxseg': maxseg, 'shard': i, 'shards': shards} for i in range(shards)]
     units.append({'kind': 'wsgi', 'n': 400 if tier == 'quick' else 5000})
+    units.append({'kind': 'history'})
     return units
 
 
@@ -251,6 +295,10 @@ def run_unit(ctx, unit):
         product_unit(ctx, unit)
     elif k == 'wsgi':
         wsgi_unit(ctx, unit)
+    elif k == 'history':
+        history_unit(ctx, unit)
+    elif k == 'note':
+        print('  witness:', unit)
     elif k == 'one':
         ombott, static_file = _setup()
         audit = get_open_audit()
